@@ -36,12 +36,17 @@ RULE = ("1-5 generated datasources per archive, each returning one provider or a
         "ContainerFileProvider} (commands answered by a recording HostContext), save_as absent / file "
         "form / directory form, args None / str / tuple, keep_rc on/off, datasources that raise, "
         "elements whose content is empty (refused at persist time); content lines = any Unicode text "
-        "without the characters str.splitlines splits on and without surrogates, whitespace-only and "
+        "without LF / CR and without surrogates, whitespace-only and "
         "whitespace-edged lines, 0-3 empty lines at either edge, lines of up to 131073 characters, "
-        "with/without final newline; the host-side source of the kinds whose provider cuts it into lines "
+        "with/without final newline; ~1 line in 9 holds, alone / at an edge / inside / twice, a character that "
+        "a text *file* keeps inside the line although some text API cuts or strips there (FF, VT, FS, GS, RS, "
+        "NEL, LS, PS - what str.splitlines cuts at besides the newlines -, US, NUL, SUB / Ctrl-Z); "
+        "the host-side source of the kinds whose provider cuts it into lines "
         "itself (text file, command / container output, a datasource's string) ends its lines with LF "
-        "(~55 % of the elements), CRLF, a lone CR, a mixture of the three, and - command kinds and "
-        "datasource strings - any other character str.splitlines cuts at; file and directory names, the "
+        "(~55 % of the elements), CRLF, a lone CR, a mixture of the three, or any other character "
+        "str.splitlines cuts at (a file reader keeps those inside the line, the others cut there - the "
+        "persisted lines are whatever the collecting provider presented); the loaded provider is read "
+        "through .content, through .stream() before .content, or through .stream() after it; file and directory names, the "
         "arguments on a command line, the recorded args and the message of a raising datasource are often "
         "(file names 45 %, directories 27 %, command tails 33 %) *host names*: bytes that are not valid "
         "UTF-8 as the os layer delivers them (surrogate-escaped, e.g. b'caf\\xe9.conf'; 40 % of the host "
@@ -52,7 +57,8 @@ RULE = ("1-5 generated datasources per archive, each returning one provider or a
         "then per metadata entry one of {none, delete, truncate at offset, non-JSON bytes, unknown "
         "component name, valid JSON of wrong shape, referenced data file deleted, entry replaced by a "
         "directory / dangling symlink}; loaded by Hydration.hydrate or hydration.initialize_broker. "
-        "Non-trivial: some persisted element has non-ASCII content, an empty line at an edge or a "
+        "Non-trivial: some persisted element has non-ASCII content, an empty line at an edge, a persisted line "
+        "holding one of the in-line separator characters or a "
         "source with a line terminator other than LF, or a location / command / argument that is not "
         "plain printable text (non-UTF-8, astral, control character, quote or backslash), or "
         "(fault part) at least one damaged and one intact entry that carries results.")
@@ -66,13 +72,12 @@ ASSUMPTIONS = [
     "json, os, shlex, glob of the standard library; a POSIX file system below tempfile.gettempdir()",
 ]
 EXCLUDED = [
-    "a line-break character (anything str.splitlines splits on: \\n \\r \\x0b \\x0c \\x1c-\\x1e \\x85 "
-    "\\u2028 \\u2029) *inside* a line, i.e. in a line a datasource hands over in a list, and in a "
-    "collected file any of them other than the newline conventions LF / CRLF / CR (the file reader keeps "
-    "those inside the line); lone surrogates *in the content* - outside 'Unicode text without line-break "
-    "characters'. Between the lines of a source that the provider cuts up itself the line-break characters "
-    "are generated (round 4); in file names, command lines, arguments and error messages surrogate-escaped "
-    "bytes are generated (round 5)",
+    "LF or CR *inside* a line that a datasource hands over in a list (a text file cannot hold such a line: "
+    "both are newline conventions of the file reader, on the collecting side as well); lone surrogates *in the "
+    "content* - outside 'Unicode text'. The other characters str.splitlines cuts at (FF VT FS GS RS NEL LS PS) "
+    "are generated inside the lines of collected files and datasource lists since round 7 (a file reader keeps "
+    "them in the line), between the lines of a source that the provider cuts up itself since round 4; in file "
+    "names, command lines, arguments and error messages surrogate-escaped bytes are generated (round 5)",
     "a quote or backslash in the path of a ContainerFileProvider (the path is put unquoted into a command "
     "line that shlex cuts up; the provider refuses it before anything is persisted); save_as values other "
     "than the fixed ones (they are constants of a spec definition, not host names)",
@@ -97,6 +102,11 @@ SPLITTING_KINDS = ("text", "ds_str", "cmd", "ccmd", "cfile")
 FILE_SPLIT_KINDS = ("text",)
 NEWLINES = [u"\n", u"\r\n", u"\r"]                       # the three newline conventions (universal newlines)
 OTHER_SEPS = [u"\x0b", u"\x0c", u"\x1c", u"\x1d", u"\x1e", u"\x85", u"\u2028", u"\u2029"]
+# characters a text *file* keeps inside the line (a line of a file ends at a newline convention, nowhere else)
+# although some text API cuts or strips there: what str.splitlines cuts at besides the newlines, US (white
+# space for str.strip / str.split like FS GS RS), NUL, SUB (end-of-file mark of DOS text files)
+INLINE_SPECIAL = OTHER_SEPS + [u"\x1f", u"\x00", u"\x1a"]
+READS = ["content", "stream-first", "stream-after"]     # how the lines of a loaded provider are read
 DIRS = ["etc", "var/log", "etc/sysconfig/network-scripts", "a b", u"ünï/日本", "x.d",
         "insights_datasources", "insights_commands", "proc/1", "data", "meta_data"]
 NAMES = ["hosts", "messages", "conf.d.txt", "with space", u"日本語", "ifcfg-eth0", "a,b;c", "UPPER",
@@ -577,6 +587,8 @@ def _content_labels(lines):
         labs.add("content:long-line")
     if any(l != l.strip() for l in lines if l):
         labs.add("content:ws-edge")
+    if any(ch in l[:200] or ch in l[-50:] for l in lines for ch in OTHER_SEPS):
+        labs.add("content:inline-sep")
     return labs
 
 
@@ -592,6 +604,9 @@ def check(case):
     faults += [{"kind": "none"}] * (len(comps_desc) - len(faults))
     tag = case.get("tag", "")
     via = case.get("via", "hydrate")
+    read = case.get("read", "content")
+    if read not in READS:
+        raise AssertionError("harness: unknown read mode %r" % (read,))
 
     tmp = tempfile.mkdtemp(prefix="%s%d-" % (TMP_PREFIX, os.getpid()))
     root = os.path.join(tmp, "host")
@@ -725,6 +740,8 @@ def check(case):
                 else:
                     e["lines"] = list(prov.content)
                     labels.update(_content_labels(e["lines"]))
+                    if "content:inline-sep" in _content_labels(e["lines"]):
+                        labels.add("content:inline-sep@" + p["kind"])
                     group = {"text": "file", "ds_str": "ds_str"}.get(p["kind"], "command")
                     if p["kind"] in SPLITTING_KINDS and not p.get("terms"):
                         labels.add("src:lf-only@" + group)
@@ -819,7 +836,12 @@ def check(case):
                 if g.relative_path != e["loc"]:
                     raise Violation("%s: relative location %r after loading, %r when persisted"
                                     % (where, g.relative_path, e["loc"]))
+                streamed = None
+                if p["kind"] != "raw" and read == "stream-first":
+                    streamed = list(g.stream())     # the provider's other reader, on a provider not yet loaded
                 content = g.content
+                if p["kind"] != "raw" and read == "stream-after":
+                    streamed = list(g.stream())
                 if p["kind"] == "raw":
                     if content != e["bytes"]:
                         raise Violation("%s: raw bytes differ after loading" % where,
@@ -828,9 +850,15 @@ def check(case):
                     if not isinstance(content, list) or not eq_upto_trailing_empty(content, e["lines"]):
                         raise Violation("%s: loaded lines differ from the persisted lines" % where,
                                         persisted=_clip_lines(e["lines"]), loaded=_clip_lines(content))
+                    if streamed is not None:
+                        labels.add("read:" + read)
+                        if not eq_upto_trailing_empty(streamed, e["lines"]):
+                            raise Violation("%s: the lines the loaded provider streams (%s) differ from the "
+                                            "persisted lines" % (where, read),
+                                            persisted=_clip_lines(e["lines"]), streamed=_clip_lines(streamed))
                     labs = _content_labels(e["lines"])
-                    if labs & set(["content:non-ascii", "content:leading-empty", "content:trailing-empty"]) \
-                            or p.get("terms"):
+                    if labs & set(["content:non-ascii", "content:leading-empty", "content:trailing-empty",
+                                   "content:inline-sep"]) or p.get("terms"):
                         nt_content = True
                 # the strings of this element that went through the metadata document
                 meta = [("path", e["loc"])]
@@ -889,7 +917,7 @@ def _clip_lines(lines):
 
 # ---- strategies ------------------------------------------------------------------------------------
 
-_chars = st.characters(exclude_categories=("Cs",), exclude_characters=LINEBREAKS)
+_chars = st.characters(exclude_categories=("Cs",), exclude_characters=u"\n\r")
 _ws = st.sampled_from([u" ", u"\t", u"  ", u"\xa0", u"\u3000", u" \t ", u"\u2003", u"\x1f", u"\ufeff", u"\x00"])
 _plain = st.text(st.sampled_from(list(u"abcXYZ019 _-=:/.#\"'\\%{}[]$")), min_size=1, max_size=24)
 _uni = st.text(_chars, min_size=1, max_size=20)
@@ -897,6 +925,11 @@ _nonascii = st.text(st.sampled_from(list(u"éüßαЖ中日\U0001f600\u0301\u200
                     min_size=1, max_size=8)
 _edged = st.builds(lambda a, b, c: a + b + c, st.one_of(_ws, st.just(u"")), st.one_of(_plain, _uni), _ws)
 _wsonly = st.builds(u"".join, st.lists(_ws, min_size=1, max_size=3))
+# a line with 1-2 runs of in-line special characters: alone, at either edge, between two texts
+_piece = st.one_of(_plain, _nonascii, st.just(u""))
+_inl = st.builds(u"".join, st.lists(st.sampled_from(INLINE_SPECIAL), min_size=1, max_size=2))
+_sepline = st.builds(lambda a, s, b, t, c: a + s + b + t + c, _piece, _inl, _piece,
+                     st.one_of(st.just(u""), _inl), st.one_of(st.just(u""), _plain))
 
 
 def _long(tier):
@@ -906,7 +939,7 @@ def _long(tier):
 
 def _lines(tier, rich):
     line = st.one_of(_plain, _uni, _nonascii, _edged, _wsonly, st.just(u""),
-                     st.builds(lambda a, b: a + b, _plain, _nonascii))
+                     st.builds(lambda a, b: a + b, _plain, _nonascii), _sepline)
     if rich:
         line = st.one_of(line, line, line, line, line, line, _long(tier))
     return st.builds(lambda lead, body, trail: [u""] * lead + body + [u""] * trail,
@@ -920,10 +953,11 @@ _SEP_STYLES = ["lf"] * 6 + ["crlf", "crlf", "cr", "mix", "any"]
 @st.composite
 def _seps(draw, kind):
     """Line terminators of the host-side source (a cycle): mostly plain LF (None), else DOS line ends,
-    old-Mac / progress-bar carriage returns, a mixture of the three newline conventions, and - for the
-    kinds that are cut by str.splitlines (command output, a datasource's string) - any of the other
-    characters it cuts at. A file is only given the newline conventions: its reader keeps the other
-    characters inside the line, which is outside 'no line-break characters inside a line'."""
+    old-Mac / progress-bar carriage returns, a mixture of the three newline conventions, or any of the
+    other characters str.splitlines cuts at. The kinds that are cut by str.splitlines (command output, a
+    datasource's string) end a line there; a file reader keeps them inside the line (page breaks in a
+    licence text, NEL from a mainframe export) - what the collecting provider presented is what was
+    persisted either way."""
     style = draw(st.sampled_from(_SEP_STYLES))
     if style == "lf":
         return None
@@ -931,7 +965,7 @@ def _seps(draw, kind):
         return [u"\r\n"]
     if style == "cr":
         return [u"\r"]
-    if style == "mix" or kind in FILE_SPLIT_KINDS:
+    if style == "mix":
         return draw(st.lists(st.sampled_from(NEWLINES), min_size=1, max_size=3))
     return draw(st.lists(st.sampled_from(NEWLINES + OTHER_SEPS + [u"\n\r"]), min_size=1, max_size=3))
 
@@ -1054,6 +1088,7 @@ def _comp(draw, tier, rich, fail_rate):
 
 _tag = st.text(st.sampled_from(list("abcxyz019_")), min_size=0, max_size=5)
 _via = st.sampled_from(["hydrate", "hydrate", "initialize_broker"])
+_read = st.sampled_from(["content", "content"] + READS[1:])
 
 
 def _with_pool(case, pool):
@@ -1071,9 +1106,10 @@ def _with_pool(case, pool):
 
 
 def strat_roundtrip(tier):
-    return st.builds(lambda tag, via, comps, pool: _with_pool({"tag": tag, "via": via, "comps": comps, "faults": []}, pool),
-                     _tag, _via, st.lists(_comp(tier, True, 12), min_size=1, max_size=4),
-                     st.sampled_from([0, 0, 0, 2, 4]))
+    return st.builds(lambda tag, via, comps, pool, read: _with_pool(
+        {"tag": tag, "via": via, "read": read, "comps": comps, "faults": []}, pool),
+        _tag, _via, st.lists(_comp(tier, True, 12), min_size=1, max_size=4),
+        st.sampled_from([0, 0, 0, 2, 4]), _read)
 
 
 @st.composite
@@ -1086,7 +1122,7 @@ def _fault_case(draw, tier):
     if all(f["kind"] == "none" for f in faults):
         i = draw(st.integers(0, len(faults) - 1))
         faults[i] = {"kind": draw(st.sampled_from(FAULTS[1:])), "n": draw(st.integers(0, 400))}
-    return {"tag": draw(_tag), "via": draw(_via), "comps": comps, "faults": faults}
+    return {"tag": draw(_tag), "via": draw(_via), "read": draw(_read), "comps": comps, "faults": faults}
 
 
 def strat_faults(tier):
